@@ -446,7 +446,14 @@ class Committee(common.Suite):
                 if st["energies"] is not None:
                     calc.results["energies"] = np.array(st["energies"], dtype=float)
                 atoms.calc = calc
+            held = None if atoms.calc is None else {k: np.array(v, copy=True) for k, v in atoms.calc.results.items()
+                                                     if k in ("forces_comm", "energies")}
             afb.update_delta()
+            afb.update_delta()      # reading the calculator's results is repeatable: they are the calculator's, not scratch space
+            if held is not None:
+                for k, v in held.items():
+                    if not np.array_equal(np.asarray(atoms.calc.results.get(k)), v):
+                        raise AssertionError(f"calculator results modified: {k}")
             sh = np.shape(afb.delta)
             want = (n, 3) if c["scheme"] == "forces" else ()
             ok = sh == want and np.shape(afb.variation_coef) == want
